@@ -231,6 +231,9 @@ def _run_diffusion(ctx, d):
                 f0 = util.field(rng, full, fk, real_t)
                 # three decades, stable and unstable values alike (the scheme identity does not care)
                 pref = real_t(10.0 ** rng.uniform(-3, 0) * rng.choice([1.0, 1.0, -1.0]))
+                if rng.random() < 0.125:
+                    pref = real_t(0.0)  # inviscid: the step must leave the field as it is, whatever the flux buffer holds
+                    ctx.rec.count("steps_with_exactly_zero_step_size")
                 meta = {"family": f"diffusion{d}d", "variant": variant, "dtype": ctx.sh["dtype"], "shape": shape, "field": fk, "prefactor": float(pref)}
 
                 def args(g):
@@ -280,6 +283,9 @@ def _run_advection(ctx, d):
                 full = shape if variant == "scalar" else (d, *shape)
                 f0 = util.field(rng, full, fk, real_t)
                 dtdx = real_t(10.0 ** rng.uniform(-3, 0) / amp)
+                if rng.random() < 0.125:
+                    dtdx = real_t(0.0)
+                    ctx.rec.count("steps_with_exactly_zero_step_size")
                 meta = {"family": f"advection{d}d", "variant": variant, "dtype": ctx.sh["dtype"], "shape": shape, "field": fk, "velocity": vk,
                         "vel_amp": amp, "dt_by_dx": float(dtdx)}
                 v0 = vel.copy()
@@ -314,7 +320,7 @@ def _run_advection(ctx, d):
                 rec.count("euler_advection_cases")
                 if variant == "vector":
                     rec.count("vector_variant_cases")
-                rec.case((f"adv{d}d", variant, ctx.sh["dtype"], fk, vk, int(np.floor(np.log10(float(dtdx) * amp)))) if fl > 0 else None, sample=meta)
+                rec.case((f"adv{d}d", variant, ctx.sh["dtype"], fk, vk, int(np.floor(np.log10(float(dtdx) * amp))) if float(dtdx) != 0 else "zero") if fl > 0 else None, sample=meta)
 
 
 def _stretch_setup(ctx, k):
